@@ -98,6 +98,11 @@ $(B)/bin/xpoll_exec: $(B)/harness/xpoll_exec.o $(LIB_OBJ)
 	@mkdir -p $(dir $@)
 	@$(CC) $(SAN) -o $@ $^ -Wl,--wrap=epoll_ctl $(LDLIBS_REAL)
 
+# mbuf_exec: the real mbuf.h (message buffer and wire encoding of tcp / tls) driven directly
+$(B)/bin/mbuf_exec: $(B)/harness/mbuf_exec.o $(LIB_OBJ)
+	@mkdir -p $(dir $@)
+	@$(CC) $(SAN) -o $@ $^ $(LDLIBS_REAL)
+
 # timer_exec: the real timer_mgr.c over the real xpoll.c in real time; timerfd_settime observed at link time
 $(B)/bin/timer_exec: $(B)/harness/timer_exec.o $(LIB_OBJ)
 	@mkdir -p $(dir $@)
